@@ -105,27 +105,6 @@ open NitroVerif.Gql NitroVerif.Ts
 /-! ### wrapper translation of leaf types -/
 
 mutual
-/-- `leafCore` with an arbitrary mapper for the named type -/
-def leafCoreWith (q : Name → Ty) : GType → Ty
-  | .named n _ => q n
-  | .list t _ => .arr (leafTsWith q t)
-  | .nonNull t => leafCoreWith q t
-/-- `leafTs` with an arbitrary mapper for the named type -/
-def leafTsWith (q : Name → Ty) : GType → Ty
-  | .named n _ => orNull (q n)
-  | .list t _ => orNull (.arr (leafTsWith q t))
-  | .nonNull t => leafCoreWith q t
-end
-
-theorem leafTs_eq_with (ns : String) (ty : GType) :
-    leafTs ns ty = leafTsWith (fun n => .qref [ns, "__OperationOutput", n]) ty ∧
-    leafCore ns ty = leafCoreWith (fun n => .qref [ns, "__OperationOutput", n]) ty := by
-  induction ty with
-  | named n p => simp [leafTs, leafCore, leafTsWith, leafCoreWith]
-  | list t p ih => simp [leafTs, leafCore, leafTsWith, leafCoreWith, ih.1]
-  | nonNull t ih => simp [leafTs, leafCore, leafTsWith, leafCoreWith, ih.2]
-
-mutual
 /-- CompleteValue for a leaf position, wrapper structure only: `null` exactly at nullable positions, lists
     element-wise, the named type's values given by `leaf` -/
 def WrapConf (leaf : Name → J → Prop) : GType → J → Prop
@@ -160,8 +139,8 @@ open NitroVerif.Gql NitroVerif.Ts
 
 /-- PRE-REPAIR `field_to_type` (before 72cec20): the literal was chosen by RESPONSE KEY -/
 def fieldTsByKey (ns : String) (parent : Name) : SField → Ts.Field
-  | .leaf n ty _ => (n, false, false, if n == "__typename" then .strLit parent else leafTs ns ty)
-  | f => fieldTs ns parent f
+  | .leaf n ty _ => (n, false, false, if n == "__typename" then .strLit parent else leafTs (Refs.ofNs ns).out ty)
+  | f => fieldTs (Refs.ofNs ns) parent f
 
 
 namespace W
@@ -251,6 +230,41 @@ theorem mapM_member_names (S : Schema) : ∀ (ms : List (Name × Pos)) (objs : L
           · cases hm; exact typeDef?_name ho'
           · cases hm
         · cases hm
+
+
+end NitroVerif.OpTypes
+
+namespace NitroVerif.OpTypes
+open NitroVerif.Gql NitroVerif.Ts
+
+/-- wrapper-exactness of the leaf translation (restated as `leafTs_exact` in Props/C02.lean) -/
+theorem leafTs_den {e : Env} (q : Name → Ty) (hq : ∀ n ts, q n ≠ .union ts) (ty : GType) :
+    (∀ v, Mem e v (leafTs q ty) ↔ WrapConf (fun n v => Mem e v (q n)) ty v) ∧
+    (∀ v, Mem e v (leafCore q ty) ↔ WrapConfNN (fun n v => Mem e v (q n)) ty v) := by
+  induction ty with
+  | named n p =>
+    constructor
+    · intro v; simp only [leafTs, WrapConf]; exact mem_orNull_iff (hq n)
+    · intro v; simp only [leafCore, WrapConfNN]
+  | list t p ih =>
+    have harr : ∀ v, Mem e v (.arr (leafTs q t)) ↔
+        ∃ xs, v = .arr xs ∧ ∀ x ∈ xs, WrapConf (fun n v => Mem e v (q n)) t x := by
+      intro v
+      rw [mem_arr_iff]
+      constructor
+      · rintro ⟨xs, rfl, hx⟩; exact ⟨xs, rfl, fun x hxm => (ih.1 x).1 (hx x hxm)⟩
+      · rintro ⟨xs, rfl, hx⟩; exact ⟨xs, rfl, fun x hxm => (ih.1 x).2 (hx x hxm)⟩
+    constructor
+    · intro v
+      simp only [leafTs, WrapConf]
+      rw [mem_orNull_iff (by intro ts h; cases h), harr v]
+    · intro v
+      simp only [leafCore, WrapConfNN]
+      exact harr v
+  | nonNull t ih =>
+    constructor
+    · intro v; simp only [leafTs, WrapConf]; exact ih.2 v
+    · intro v; simp only [leafCore, WrapConfNN]; exact ih.2 v
 
 
 end NitroVerif.OpTypes
